@@ -27,7 +27,7 @@ from pdfminer.layout import (
 
 from mc.explore import Abort, ChoiceExplorer
 from mc.refs import layout_model as M
-from mc.refs.layout_glyphs import install_stable_id, make_page
+from mc.refs.layout_glyphs import install_stable_id, make_char, make_figure, make_page
 
 ID = "C09"
 LEVEL = "model_checking"
@@ -327,6 +327,13 @@ def fam_columns(c, tier):
     }
 
 
+def fam_chain_in_figure(c, tier):
+    g = fam_chain(c, tier)
+    g["family"] = "chain-in-figure"
+    g["in_figure"] = True
+    return g
+
+
 FAMILIES = {
     # name: (generator, arities of the shard-prefix choices per tier, orientations)
     "pair": (fam_pair, lambda t: [len(SIZES if t == "thorough" else SIZES_QUICK), len(LO)], "HV"),
@@ -337,6 +344,7 @@ FAMILIES = {
     "chain": (fam_chain, lambda t: [27, len(CHAIN_GAPS) + 3] if t == "thorough" else [8, len(CHAIN_GAPS)], "HV"),
     "columns": (fam_columns, lambda t: [9 if t == "thorough" else 6, len(BF_COLUMNS)], "H"),
     "triple-back": (fam_triple_back, lambda t: [2, 2], "HV"),
+    "chain-in-figure": (fam_chain_in_figure, lambda t: [27, len(CHAIN_GAPS) + 3] if t == "thorough" else [8, len(CHAIN_GAPS)], "H"),
 }
 
 META = {
@@ -349,7 +357,7 @@ META = {
         "(two lines: vertical gap, height difference and start/end/centre offsets each on/below/above line_margin*height "
         "of the viewing line, either line viewing, either content order; neighbours-by-half-a-unit also translated so that the near edge lies on a line of Plane's 50-unit grid; proper-overlap shift family); chain (three lines of "
         "heights 8/16 with gaps around both tolerances, all 6 content orders: connected components of an asymmetric "
-        "relation); triple-back (second glyph placed back over a wide first glyph, third glyph with its gap to the second on/below/above both margins); columns (1-2 columns x 1-3 rows, 1-2 lines per cell, single column also with a wide top cell, boxes_flow {1/4,1/2,3/4,0,0.0,-0.0,+1,-1}, content orders). Every "
+        "relation); chain-in-figure (the chain arrangements as the content of a figure on a page that has no glyph of its own, all_texts=True: same expected grouping); triple-back (second glyph placed back over a wide first glyph, third glyph with its gap to the second on/below/above both margins); columns (1-2 columns x 1-3 rows, 1-2 lines per cell, single column also with a wide top cell, boxes_flow {1/4,1/2,3/4,0,0.0,-0.0,+1,-1}, content orders). Every "
         "family except columns is run in horizontal writing (detect_vertical=False) and mirrored into vertical writing "
         "(detect_vertical=True). Every arrangement is analysed at scale 1 and at 2^k, k in {-3,-1,1,4} (k=7 and k=10 on "
         "stated sub-families). A case is one arrangement with its LAParams (distinct by construction); non-trivial = the "
@@ -407,6 +415,8 @@ def materialise(gen, orient):
         "judge_space": gen["judge_space"],
         "scales": tuple(BASE_SCALES) + tuple(gen["extra_scales"]),
     }
+    if gen.get("in_figure"):
+        case["in_figure"] = True
     if "column_major" in gen:
         case["column_major"] = gen["column_major"]
         case["cell_cols"] = gen["cell_cols"]
@@ -414,17 +424,35 @@ def materialise(gen, orient):
     return case
 
 
+class FigureNotAnalysed(Exception):
+    pass
+
+
 def run_impl(case, k):
     """real analysis at scale 2^k -> canonical structure"""
     s = Q(2) ** k
     specs = [(t, float(x0 * s), float(y0 * s), float(w * s), float(h * s), "h") for t, x0, y0, w, h in case["glyphs"]]
     P = float(case["page"] * s)
-    page, chars = make_page((0, 0, P, P), specs)
     lo, cm, lm, wm, bf, dv = case["params"]
+    in_figure = bool(case.get("in_figure"))
+    if in_figure:
+        # the page has no glyph of its own: all glyphs sit in a figure (a form XObject) covering the page; all_texts=True
+        page, _ = make_page((0, 0, P, P), [])
+        fig = make_figure("F", (0, 0, P, P))
+        chars = [make_char(sp) for sp in specs]
+        for ch in chars:
+            fig.add(ch)
+        page.add(fig)
+    else:
+        page, chars = make_page((0, 0, P, P), specs)
     install_stable_id().reset()
     page.analyze(
-        LAParams(line_overlap=float(lo), char_margin=float(cm), line_margin=float(lm), word_margin=float(wm), boxes_flow=(float(bf) if isinstance(bf, Q) else bf), detect_vertical=dv)
+        LAParams(line_overlap=float(lo), char_margin=float(cm), line_margin=float(lm), word_margin=float(wm), boxes_flow=(float(bf) if isinstance(bf, Q) else bf), detect_vertical=dv, all_texts=in_figure)
     )
+    if in_figure:
+        if any(isinstance(o, LTChar) for o in fig):
+            raise FigureNotAnalysed("the figure still holds bare glyphs after analysis with all_texts=True")
+        page = fig
     ids = {id(c): i for i, c in enumerate(chars)}
     boxes = []
     loose = []
@@ -476,6 +504,8 @@ def judge(case):
     nontrivial = any(len(l[0]) > 1 for l in lines) or any(len(b) > 1 for b in boxes) or (case["family"] == "columns" and len(boxes) > 1)
     try:
         base = run_impl(case, 0)
+    except FigureNotAnalysed as e:
+        return [("C09/figure-on-glyphless-page-not-analysed:all_texts=True", "glyphs of the figure grouped like page content", str(e))], ("figure-bare",), nontrivial, notj
     except Exception as e:  # noqa
         tb = traceback.extract_tb(e.__traceback__)
         return [(f"C09/exception:{type(e).__name__}@{tb[-1].name}", "analysis returns", f"{type(e).__name__}: {e}")], ("exc",), nontrivial, notj
